@@ -182,6 +182,43 @@ def check_obs(c, obs):
     return None
 
 
+def ld_isnan(b):
+    """b: 10 little-endian bytes of an x87 extended value"""
+    e = (b[9] & 0x7f) << 8 | b[8]
+    frac = int.from_bytes(bytes(b[:8]), 'little') & ((1 << 63) - 1)
+    return e == 0x7fff and frac != 0
+
+
+def ld_same(c, obs, nobs):
+    """engine observation vs native observation of a long double case (any NaN matches any NaN)"""
+    (ret, ch), (nret, nch) = obs, nobs
+    info = c['info']
+    if info.res == 'i' and c['dst']['kind'] != 'm':
+        if (ret ^ nret) & info.mask:
+            return False
+        ch = {o: v for o, v in ch.items() if not (info.mask == 0xffffffff and 100 <= o < 104)}
+        nch = {o: v for o, v in nch.items() if not (info.mask == 0xffffffff and 100 <= o < 104)}
+        return ch == nch
+    if ret != nret:
+        return False
+    if info.res in ('l', 'f', 'd'):
+        off = 192 if c['dst']['kind'] == 'm' else 96
+        size = G.KIND_SIZE[info.res]
+        gb = [ch.get(off + i, 0xA5) for i in range(size)]
+        nb = [nch.get(off + i, 0xA5) for i in range(size)]
+        if info.res == 'l':
+            if ld_isnan(gb) and ld_isnan(nb):
+                ch = {o: v for o, v in ch.items() if not off <= o < off + size}
+                nch = {o: v for o, v in nch.items() if not off <= o < off + size}
+        else:
+            gv = int.from_bytes(bytes(gb), 'little')
+            nv = int.from_bytes(bytes(nb), 'little')
+            if isnan(info.res, gv) and isnan(info.res, nv):
+                ch = {o: v for o, v in ch.items() if not off <= o < off + size}
+                nch = {o: v for o, v in nch.items() if not off <= o < off + size}
+    return ch == nch
+
+
 def run_harness(exe, lines, jobs=4):
     """returns {id: {engine: token}}; a crash of the harness is reported as {'crash': text}"""
     shards = [lines[i::jobs] for i in range(jobs)]
@@ -334,10 +371,25 @@ def correspond(chk, exe, oracle, infos, lines):
             bad.append((c, 'crash', r['crash']))
             continue
         if c['exp'] == 'nodoc':
-            toks = set(r.get(e) for e in ENGINES)
-            if len(toks) != 1:
-                bad.append((c, 'engines-disagree', 'long double result differs between engines: %s' % r))
-            chk.dist('oracle', 'engine-vs-engine')
+            # long double: no Coq semantics; independent oracle = the host compiler's own long double
+            # arithmetic (harness "native"), else agreement of all engines
+            nat = r.get('native')
+            if nat is not None:
+                nobs = G.parse_obs(nat)
+                wrong = []
+                for e in ENGINES:
+                    obs = G.parse_obs(r.get(e)) if r.get(e) else None
+                    if obs is None or not ld_same(c, obs, nobs):
+                        wrong.append(e)
+                if wrong:
+                    bad.append((c, ','.join(wrong), 'long double result differs from the host compiler\'s: native %s, engines %s' % (
+                        nat, {e: r.get(e) for e in wrong})))
+                chk.dist('oracle', 'native-long-double')
+            else:
+                toks = set(r.get(e) for e in ENGINES)
+                if len(toks) != 1:
+                    bad.append((c, 'engines-disagree', 'long double result differs between engines: %s' % r))
+                chk.dist('oracle', 'engine-vs-engine')
             continue
         chk.dist('oracle', 'docspec')
         wrong = []
